@@ -118,6 +118,8 @@ class Clause:
     quick: int = 100
     thorough: int = 2000
     shards: int = 16
+    # processes used in the quick tier (1 = in-process); for clauses whose cases are dominated by process start-up
+    quick_shards: int = 1
     # finite sub-space enumerated completely: tier -> iterable of cases
     enumerate: Optional[Callable[[str], Iterable[Any]]] = None
     enum_name: str = ""
@@ -543,6 +545,8 @@ def run_property(mod, tier: str, argv_opts) -> int:
         if clause.strategy is not None:
             if tier == "thorough" and clause.shards > 1:
                 r = run_sharded(prop_id, clause, tier, seed, "gen", clause.shards)
+            elif tier == "quick" and clause.quick_shards > 1:
+                r = run_sharded(prop_id, clause, tier, seed, "gen", clause.quick_shards)
             else:
                 n = clause.thorough if tier == "thorough" else clause.quick
                 r = run_clause_generated(
@@ -560,6 +564,8 @@ def run_property(mod, tier: str, argv_opts) -> int:
         if clause.enumerate is not None and tier in clause.enum_tiers:
             if tier == "thorough" and clause.shards > 1:
                 r = run_sharded(prop_id, clause, tier, seed, "enum", clause.shards)
+            elif tier == "quick" and clause.quick_shards > 1:
+                r = run_sharded(prop_id, clause, tier, seed, "enum", clause.quick_shards)
             else:
                 r = run_clause_enumerated(prop_id, clause, tier)
             results.append(r)
